@@ -202,7 +202,7 @@ pub fn mbi_builder(bytes: &[u8]) {
         expect.push(5);
     }
     if n(5) != 0 {
-        bld = bld.mmap(MemoryMapTag::new(&[MemoryArea::new(0, 1, MemoryAreaType::Available)]));
+        bld = bld.mmap(MemoryMapTag::new(&[]));
         expect.push(6);
     }
     if n(6) != 0 {
